@@ -112,6 +112,8 @@ def locate_specs(draw, tier):
     spec["tolerance"] = draw(st.sampled_from([None, None, 1e-3, 1e-8]))
     spec["ls_params"] = draw(st.sampled_from([None, None, None, {}, {"max_nfev": 25}, {"method": "trf", "loss": "linear"}]))  # documented pass-through to scipy
     spec["via"] = draw(st.sampled_from(["locate_droplets", "locate_droplets", "tracker"]))
+    # refinement spread over worker processes (documented option), also when nothing or a single candidate is left to refine
+    spec["num_processes"] = draw(st.sampled_from([1] * 11 + [2]))
     del ra
     return spec
 
@@ -301,6 +303,9 @@ class C09(Property):
                 # droplet model (other number of fit parameters), then the judged request
                 ctx.cls("shared-options-dict")
                 locate_droplets(field, interface_width=iw, refine_args=shared, **{**kw, "modes": 0 if modes else 2})
+            if spec.get("num_processes", 1) != 1 and spec["refine"]:
+                kw["num_processes"] = spec["num_processes"]
+                ctx.cls(f"processes:{spec['num_processes']}")
             res = locate_droplets(field, interface_width=iw, refine_args=shared, **kw)
             iw_used = iw
         if not ctx.require(isinstance(res, Emulsion), "locate:type", f"returned {type(res).__name__}"):
